@@ -68,6 +68,9 @@ func genC15(seed uint64, tier string) *Scenario {
 		for tx.Kind == "create2" || tx.Kind == "create" {
 			tx = genTx(r, g)
 		}
+		if g.heavy && tx.Gas > 250000 {
+			tx.Gas = 100000 + tx.Gas%150000 // see genStdScenario
+		}
 		ex.Txs = append(ex.Txs, tx)
 	}
 	sc.Execs = []Exec{ex}
